@@ -23,7 +23,7 @@ import math
 import numpy as np
 
 from runtime import oracles_C07_C09 as O
-from runtime.common import close, use_repo, rot_frame
+from runtime.common import close, use_repo, rot_frame, alternate_route
 
 RULE = ("inner: all (start, end, min_segment_length) of the box, non-trivial when an admissible inner interval exists; greedy kernel: explicit "
         "candidate systems x inner intervals x score orders x thresholds, non-trivial when an anomaly is selected among >= 2 candidates; "
@@ -255,7 +255,7 @@ def make_detector(inp, sc):
               growth_factor=inp["g"])
     if inp.get("level") is not None:
         kw["level"] = inp["level"]
-    return CircularBinarySegmentation(**kw)
+    return alternate_route(CircularBinarySegmentation(**kw))
 
 
 def check_detector(rec, inp):
@@ -462,6 +462,13 @@ def _enumerate(rec, tier, seed, bound_out):
                                 ths = [t for t in _thresholds_from(info["scores"], 4) if t > 0]
                                 variants += [dict(base, threshold_scale=float(t / info["threshold"])) for t in ths][: (2 if quick else 4)]
                             variants.append(dict(base, threshold_scale=0.0))        # scale 0: every positive score is above the threshold
+                            if info["threshold"] and info["scores"] and ths and (n + m) % 2 == 0:
+                                # numeric scale, fitted on a four times longer series: the selection uses the FITTED threshold (aimed between
+                                # two scores of X), not one recomputed from the series handed to predict
+                                nf = 4 * n
+                                extra = dict(base, threshold_scale=float(ths[0] / (2 * p * math.log(nf * M))), Xfit=O.gen_data(rng, nf, p, "none"))
+                                inf3 = check_detector(rec, extra)
+                                rec.case(("det", str(spec), n, p, m, M, g, "fit-on-longer"), inf3["nt"], None)
                             results = [(info["threshold"], info["anomalies"])] if info["anomalies"] is not None else []
                             for d in variants:
                                 inf2 = check_detector(rec, d)
